@@ -46,11 +46,35 @@ def call_raises(call: ast.Call, callee: str) -> List[str]:
     return out
 
 
+def _fixed_width_unpack(call: ast.Call, callee: str, term_of) -> bool:
+    """``struct.unpack(<const fmt>, buf[a:b])`` with b - a == calcsize(fmt): cannot raise
+    once the buffer is known to hold b bytes (the length guard is C03.B2's obligation)."""
+    import struct as _st
+    if callee != 'struct.unpack' or len(call.args) != 2 or not isinstance(call.args[0], ast.Constant):
+        return False
+    try:
+        width = _st.calcsize(call.args[0].value)
+    except Exception:
+        return False
+    try:
+        a = ast.parse(term_of(call.args[1]) if term_of else ast.unparse(call.args[1]), mode='eval').body
+    except SyntaxError:
+        return False
+    if isinstance(a, ast.Subscript) and isinstance(a.slice, ast.Slice) and a.slice.step is None:
+        lo = a.slice.lower.value if isinstance(a.slice.lower, ast.Constant) else (0 if a.slice.lower is None else None)
+        hi = a.slice.upper.value if isinstance(a.slice.upper, ast.Constant) else None
+        if isinstance(lo, int) and isinstance(hi, int) and hi - lo == width:
+            return True
+    return False
+
+
 def node_raises(node: ast.AST, term_of=None) -> List[str]:
     """Library exceptions of one statement/expression (calls + keyed subscripts)."""
     out: List[str] = []
     for call in calls_in(node):
         callee = term_of(call.func) if term_of else ast.unparse(call.func)
+        if _fixed_width_unpack(call, callee, term_of):
+            continue
         out.extend(call_raises(call, callee))
     for n in ast.walk(node):
         if isinstance(n, ast.Subscript) and isinstance(n.ctx, ast.Load) and not isinstance(n.slice, ast.Slice):
